@@ -1101,6 +1101,95 @@ def _replay_cut(f):
     return unbalanced_api_case(f['input']['text']) is None
 
 
+# ------------------------------------------------------------------------------------------------ words left over
+
+CANDIDATES = ['5', '192.0.2.1', '65000:1', '[ 65000:1 ]', 'igp', '10.0.0.1/32', '=80', 'tcp', '[ 65000 65001 ]', 'true', '0x01', '65000:1:2', '[ 0x99 0xc0 0x00 ]', '', '1000', 'first-fragment', 'syn', '2001:db8::1', '2001:db8::/64', '100 200', '[ 800000 ]', 'dog', 'disable', 'enable', '( 65000:192.0.2.1 )', '/25', 'sample', 'transitive:input:65000:1', 'origin igp med 5']
+
+
+def leftover_frames():
+    """(section, keyword, frame) for every keyword of the block sections, read from the parsers of the tree; frame % value is
+    an API command"""
+    from exabgp.configuration.flow.match import ParseFlowMatch
+    from exabgp.configuration.flow.scope import ParseFlowScope
+    from exabgp.configuration.flow.then import ParseFlowThen
+    from exabgp.configuration.static.route import ParseStaticRoute
+
+    def keys(cls):
+        return sorted(k for k in cls.known if isinstance(k, str))
+
+    out = []
+    for kw in keys(ParseStaticRoute):
+        if kw != 'next-hop':
+            out.append(('route', kw, 'announce route 10.1.0.0/24 { next-hop 192.0.2.1; ' + kw + ' %s; }'))
+    out.append(('route', 'next-hop', 'announce route 10.1.0.0/24 { next-hop %s; }'))
+    for kw in keys(ParseFlowMatch):
+        out.append(('match', kw, 'announce flow route { match { ' + kw + ' %s; } then { discard; } }'))
+    for kw in keys(ParseFlowThen):
+        out.append(('then', kw, 'announce flow route { match { destination 10.0.0.0/24; } then { ' + kw + ' %s; } }'))
+    for kw in keys(ParseFlowScope):
+        out.append(('scope', kw, 'announce flow route { ' + kw + ' %s; match { destination 10.0.0.0/24; } then { discard; } }'))
+    return out
+
+
+def _accepted(text):
+    res = outcome(api_object(), text)
+    return res[0] is None and res[1][0] == 'done'
+
+
+def leftover_case(text, good):
+    inp = {'text': text, 'accepted_without_the_extra_word': good}
+    f0 = direct_entry(text)
+    if f0:
+        return f0
+    res = outcome(api_object(), text)
+    if res[0]:
+        return res[0]
+    if res[1][0] != 'error':
+        return {'what': 'a statement with a word left over after the value of its keyword was accepted: the word was dropped unread', 'input': inp, 'routes': list(res[1][1])}
+    return None
+
+
+@bounded('C18', 'words-left-over')
+def words_left_over(tier, seed):
+    """PROPERTY: an accepted definition carries the values as written.  A word which follows the complete value of a keyword
+    inside a block (`med 5 6;`, `discard zzz;`, `source 10.0.0.1/32 10.0.0.2/32;`) is written and cannot be carried: the
+    statement is to be refused, as the one-line route form does.  For every keyword of the block sections (read from the
+    parsers of the tree) the first candidate value the tree ACCEPTS is taken, then a word is added after it."""
+    fails, evals, distinct, driven, idle = [], 0, set(), [], []
+    for section, kw, frame in leftover_frames():
+        good = next((frame % c for c in CANDIDATES if _accepted(frame % c)), None)
+        evals += 1
+        if good is None:
+            idle.append(f'{section}:{kw}')
+            continue
+        driven.append(f'{section}:{kw}')
+        value = good[len(frame.split('%s')[0]) : len(good) - len(frame.split('%s')[1])]
+        for extra in ('zzz', value.split()[-1] if value.split() else 'zzz', '0'):
+            if value.rstrip().endswith(']') or not value.strip():
+                text = frame % (value + ' ' + extra)
+            else:
+                text = frame % (value + ' ' + extra)
+            evals += 1
+            distinct.add(text)
+            f = leftover_case(text, good)
+            if f:
+                fails.append(f)
+    fails.sort(key=lambda f: len(f['input']['text']))
+    return {
+        'evaluations': evals,
+        'distinct_nontrivial': len(distinct),
+        'bound': f'{len(driven)} keywords of the route / flow match / then / scope blocks (registry of the tree) with the first of {len(CANDIDATES)} candidate values the tree accepts x 3 extra words (zzz, the last word of the value again, 0); NOT driven, no candidate accepted: {", ".join(idle) or "none"}',
+        'rule': 'one case = the text; distinct by value',
+        'samples': [{'text': 'announce route 10.1.0.0/24 { next-hop 192.0.2.1; med 5 zzz; }'}],
+        'failures': fails,
+    }
+
+
+@replayer('C18', 'words-left-over')
+def _replay_leftover(f):
+    return leftover_case(f['input']['text'], f['input'].get('accepted_without_the_extra_word')) is None
+
+
 @bounded('C18', 'api-and-file')
 def api_and_file(tier, seed):
     fails, evals, distinct, samples = [], 0, set(), []
